@@ -192,7 +192,9 @@ impl NotificationHandler for DidOpenTextDocument {
 impl NotificationHandler for DidChangeTextDocument {
     fn handle(cache: &mut Cache, params: Self::Params) -> Option<Notification> {
         let uri = params.text_document.uri;
-        let text = params.content_changes.into_iter().next().unwrap().text;
+        // full synchronisation: every entry carries the whole text and the entries
+        // apply in order, so the last one is the latest text; no entry, no change
+        let text = params.content_changes.into_iter().last()?.text;
         let diagnostics = {
             cache.invalidate(&uri);
             cache.analyze(uri.clone(), text);
